@@ -587,6 +587,239 @@ def two_spellings_scenario(ctx, viol):
         pr.destroy()
 
 
+CW_CAP = 20000          # upper bound of lines per background writer (keeps a round bounded on a stalled machine)
+RECORD_RE = re.compile(r"^@@REDO:[a-z]+:-?\d+:\d+\.\d+@@ [^@\n]*$")
+
+
+def cw_project(pr, rng, nkids, nmid, slow=False):
+    """A tree of targets whose inner nodes have several concurrent writers on their own log: the script itself, 1-3
+    background subshells that keep writing numbered lines to stderr, and the redo-ifchange process(es) that append
+    the structured records of the children (some nodes start two redo-ifchange at the same time).  Every writer writes
+    whole lines only, one write(2) each, so that the attribution of every line is defined: line `<t> w<k> <i>` is the
+    i-th line of writer k of target t (writer 0 = the script).  Returns {target: number of background writers}."""
+    spec = {}
+
+    def leaf(n):
+        nl = rng.randint(1, 3)
+        pr.write(n + ".do", "".join("echo '%s w0 %d' >&2\n" % (n, i) for i in range(nl)) + "echo out-%s\n" % n)
+        spec[n] = dict(bg=0, main=nl)
+
+    def inner(n, kids):
+        T = rng.randint(1, 3)
+        body = ["echo '%s w0 0' >&2" % n]
+        for t in range(1, T + 1):
+            pause = "sleep 0.01; " if slow else ""
+            body.append("( i=0; while [ ! -e stop.%s ] && [ $i -lt %d ]; do echo \"%s w%d $i\" >&2; i=$((i+1)); %sdone; echo $i >cnt.%s.%d ) &"
+                        % (n, CW_CAP, n, t, pause, n, t))
+        body.append("rc=0")
+        if len(kids) >= 4 and rng.random() < 0.35:
+            h = len(kids) // 2
+            body.append("redo-ifchange %s & p1=$!" % " ".join(kids[:h]))
+            body.append("redo-ifchange %s || rc=$?" % " ".join(kids[h:]))
+            body.append("wait $p1 || rc=$?")
+        else:
+            body.append("redo-ifchange %s || rc=$?" % " ".join(kids))
+        body.append("echo '%s w0 1' >&2" % n)
+        body.append(": >stop.%s" % n)
+        body.append("wait")
+        body.append("echo '%s w0 2' >&2" % n)
+        body.append("[ $rc = 0 ] || exit $rc")
+        body.append("echo out-%s" % n)
+        pr.write(n + ".do", "\n".join(body) + "\n")
+        spec[n] = dict(bg=T, main=3)
+
+    kids = []
+    for i in range(nkids):
+        k = "k%d" % i
+        if i < nmid:
+            gk = ["%sg%d" % (k, x) for x in range(rng.randint(3, 6))]
+            for g in gk:
+                leaf(g)
+            inner(k, gk)
+        else:
+            leaf(k)
+        kids.append(k)
+    rng.shuffle(kids)
+    inner("top", kids)
+    return spec
+
+
+def cw_counts(pr, spec):
+    """Lines written per writer: {target: [n_main, n_bg1, ...]} (background writers report their count in a file)."""
+    counts = {}
+    for n, s in spec.items():
+        c = [s["main"]]
+        for t in range(1, s["bg"] + 1):
+            raw = pr.read("cnt.%s.%d" % (n, t))
+            c.append(int(raw) if raw and raw.strip().isdigit() else None)
+        counts[n] = c
+    return counts
+
+
+def cw_monitor(per, counts):
+    """The property on an attributed stream: every line shown is a line that a writer of the target it is shown under
+    wrote; per writer the lines are 0..n-1 in order (exactly once, original order; the order BETWEEN the concurrent
+    writers of one log is not defined and not checked)."""
+    seqs = {}
+    for tgt, lines in per.items():
+        for l in lines:
+            mm = re.match(r"^(\S+) w(\d+) (\d+)$", l)
+            if not mm or mm.group(1) not in counts or int(mm.group(2)) >= len(counts[mm.group(1)]):
+                return "the line %r (shown under %s) is not a line any script wrote" % (l[:120], tgt)
+            if mm.group(1) != tgt:
+                return "the line %r of %s is shown under %s" % (l[:120], mm.group(1), tgt)
+            seqs.setdefault((tgt, int(mm.group(2))), []).append(int(mm.group(3)))
+    for n, c in sorted(counts.items()):
+        for w, cnt in enumerate(c):
+            got = seqs.get((n, w), [])
+            if cnt is None:
+                return "writer %d of %s never reported how many lines it wrote" % (w, n)
+            if got != list(range(cnt)):
+                bad = next((i for i, x in enumerate(got) if x != i), len(got))
+                return "writer %d of %s wrote lines 0..%d; shown under %s: %d lines, first deviation at position %d (%s)" % (
+                    w, n, cnt - 1, n, len(got), bad, "line %d" % got[bad] if bad < len(got) else "line %d missing" % bad)
+    return None
+
+
+def cw_stored_logs(pr):
+    """Every line of a stored log that contains record syntax must be exactly one well-formed record (the scripts of
+    the scenario never write '@@')."""
+    import glob
+    bad = []
+    nrec = 0
+    for lp in sorted(glob.glob(pr.path(".redo/log.*"))):
+        for l in open(lp, errors="replace").read().split("\n"):
+            if "@@" in l:
+                nrec += 1
+                if not RECORD_RE.match(l):
+                    bad.append((os.path.basename(lp), l[:160]))
+    return nrec, bad
+
+
+def strace_unescape(s):
+    return re.sub(r"\\(.)", lambda m: {"n": "\n", "t": "\t", "r": "\r"}.get(m.group(1), m.group(1)), s)
+
+
+def split_records(path):
+    """Syscall-level monitor on a `strace -f -y -e trace=write` log: in the stream that ONE process writes to ONE
+    file or pipe, every line that starts with @@REDO: must lie within a single write(2) call.  Returns
+    (records seen, [(pid, file, pieces)] for the records written in several calls)."""
+    pend = {}
+    nrec = 0
+    bad = []
+    for l in open(path, errors="replace"):
+        m = re.match(r'^(\d+)\s+write\((\d+)<([^>]*)>, "((?:[^"\\]|\\.)*)"(\.\.\.)?, \d+', l)
+        if not m:
+            continue
+        pid, fd, fpath, data, trunc = m.groups()
+        if not (re.search(r"/\.redo/log\.\d+$", fpath) or fpath.startswith("pipe:")):
+            continue
+        key = (pid, fpath)
+        if trunc:
+            pend.pop(key, None)        # content not fully visible: nothing is claimed about this line
+            continue
+        data = strace_unescape(data)
+        if not data:
+            continue
+        pieces = pend.pop(key, [])
+        parts = data.split("\n")
+        for i, part in enumerate(parts[:-1]):
+            ps = pieces + [part + "\n"] if i == 0 else [part + "\n"]
+            line = "".join(ps)
+            if line.startswith("@@REDO:"):
+                nrec += 1
+                if len(ps) > 1:
+                    bad.append((pid, fpath, ps))
+        rest = parts[-1]
+        if len(parts) == 1:
+            pend[key] = pieces + [rest]
+        elif rest:
+            pend[key] = [rest]
+    for (pid, fpath), ps in pend.items():
+        if "".join(ps).startswith("@@REDO:"):
+            nrec += 1
+            bad.append((pid, fpath, ps))
+    return nrec, bad
+
+
+def concurrent_writers_level(ctx, rng, viol, only=None):
+    """Scripts that keep writing to their own stderr (background progress writers, a second redo-ifchange) WHILE
+    redo-ifchange appends the records of ~20 children to the same log: two or more concurrent writers on one log file.
+    (a) free-running live builds; (b) one small build under strace with every write(2) slowed down, which makes the
+    interleaving of the writers fine-grained, with the syscall-level monitor `split_records` (a record must reach the
+    log in ONE write call: the log protocol — several processes appending to one open file — relies on that)."""
+    import shutil
+    thorough = ctx["tier"] == "thorough"
+    stats = dict(builds=0, lines=0, bg_lines=0, records_in_logs=0, strace_builds=0, records_traced=0)
+    base = ["--no-pretty", "--no-color", "--no-status"]
+    rounds = [("free", j) for j in ([1, 2, 3, 4, 6, 8] if thorough else [rng.choice([2, 3]), rng.choice([1, 4, 6])])]
+    if shutil.which("strace"):
+        rounds.append(("strace", 2))
+    else:
+        stats["strace_missing"] = 1
+    for mode, j in rounds:
+        if only and mode != only:
+            continue
+        pr = Project()
+        try:
+            if mode == "free":
+                spec = cw_project(pr, rng, nkids=rng.randint(16, 24), nmid=rng.randint(0, 2))
+                argv = ["redo", "-j%d" % j] + base + ["top"]
+            else:
+                spec = cw_project(pr, rng, nkids=rng.randint(5, 7), nmid=1, slow=False)
+                st = pr.path(".strace-out")
+                argv = ["strace", "-f", "-qq", "-y", "-s", "400", "-o", st, "-e", "trace=write", "-e", "inject=write:delay_exit=1000",
+                        "redo", "-j%d" % j] + base + ["top"]
+            rc, out, err = pr.run(argv, timeout=300)
+            if mode == "strace" and (rc != 0 and "@@REDO:" not in err):
+                stats["strace_failed"] = err[-200:]       # strace could not run here (no ptrace): nothing observed
+                continue
+            stats["builds"] += 1
+            rc2, out2, err2 = pr.run(["redo-log"] + base + ["-r", "top"], timeout=300)
+            counts = cw_counts(pr, spec)
+            stats["lines"] += sum(x or 0 for c in counts.values() for x in c)
+            stats["bg_lines"] += sum(x or 0 for c in counts.values() for x in c[1:])
+            scen = "inner targets run 1-3 background writers of numbered stderr lines (and sometimes two redo-ifchange at once) while redo-ifchange builds their children; %d targets, -j%d%s" % (
+                len(spec), j, ", whole build under strace with every write(2) delayed by 1 ms" if mode == "strace" else "")
+            problem = None
+            if rc != 0:
+                problem = "redo exits with status %d" % rc
+            elif rc2 != 0:
+                problem = "redo-log -r exits with status %d (%s)" % (rc2, err2.strip()[-120:])
+            for where, text in (("live output", err), ("redo-log replay", out2)):
+                if not problem:
+                    bad = cw_monitor(attribute(parse_out(text)), counts)
+                    if bad:
+                        problem = "%s: %s" % (where, bad)
+            nrec, damaged = cw_stored_logs(pr)
+            stats["records_in_logs"] += nrec
+            if damaged and not problem:
+                problem = "stored log %s holds the damaged record line %r" % damaged[0]
+            split = []
+            if mode == "strace":
+                stats["strace_builds"] += 1
+                ntr, split = split_records(st)
+                stats["records_traced"] += ntr
+            if problem or split:
+                what = []
+                if problem:
+                    what.append(problem + (" (%d damaged record lines in .redo/log.*)" % len(damaged) if damaged else ""))
+                if split:
+                    pid, fpath, ps = split[0]
+                    what.append("assumption of the log model violated: %d of %d structured records were written in several write(2) calls (pid %s to %s: %r) — "
+                                "a record must reach the log in ONE write, other processes append to the same file concurrently" % (
+                                    len(split), ntr, pid, fpath.replace(pr.root, "."), ps[:12]))
+                scripts = dict((n, pr.read(n + ".do").decode()) for n in ("top", "k0"))
+                p = write_replay("C18", "concurrent-writers", dict(kind="impl-monitor", clause="every stderr line exactly once, in order, under its target (live and replay); records survive", mode=mode, j=j,
+                                                                   scenario=scen, rc=rc, rc_replay=rc2, counts=counts, damaged_records=damaged[:10], split_records=[(a, b.replace(pr.root, "."), c) for a, b, c in split[:10]],
+                                                                   scripts=scripts, live_tail=err[-1500:]))
+                viol.append(Violation("C18", p, "%s [%s]" % ("; ".join(what), scen)))
+                return stats
+        finally:
+            pr.destroy()
+    return stats
+
+
 def run(ctx):
     rng = random.Random(ctx["seed"])
     viol = ctx.setdefault("violations", [])
